@@ -416,6 +416,16 @@ fn check_chain(cx: &Ctx, ch: &Chain, store: &StoreD, origin: &str, model: &mut M
     let impl_dump = out.dump.clone().unwrap_or_default();
     let impl_out = out.outs[0].clone();
 
+    // the tree the parser built, against the model's
+    if !ends_with_operator_char(&text) {
+        let it = parse_impl(&text);
+        let mt = model.ask(&format!("expr parse {}", hexs(&text)));
+        rep.count("parse-compared");
+        if it != mt {
+            rep.disagree(json!({"what": "parse", "text": text, "impl": it, "model": mt}));
+        }
+    }
+
     // (a) the reference value: documented precedence, equal priorities grouped left to right
     let reply = model.ask(&format!("expr oracle {} {}", store.wire(), ch.wire()));
     let mut it = reply.splitn(3, ' ');
@@ -448,17 +458,24 @@ fn check_chain(cx: &Ctx, ch: &Chain, store: &StoreD, origin: &str, model: &mut M
 
     // (b) compiled afresh vs served from the session's cache (same source id twice), and vs (i)
     let id = 1 + p.below(1000) as usize;
+    let id2 = id + 1 + p.below(5) as usize;
+    let other = "1 + 2 * 3 - i2".to_string();
     let cached = Case {
         origin: format!("{}:cache", origin),
         store: store.clone(),
-        steps: vec![Step::E(id, text.clone()), Step::E(id, text.clone())],
+        steps: vec![Step::E(id, text.clone()), Step::E(id2, other.clone()), Step::E(id, text.clone()), Step::E(id2, other.clone())],
         chain: None,
         expect_bool: None,
     };
     if let Some(co) = check_case(cx, &cached, model, rep) {
         // second (cached) evaluation on a fresh store must behave like the first on a fresh store
         let once = run_impl(store, &[Step::E(id, text.clone())], LONG_WAIT, None);
-        let twice_fresh = run_impl(store, &[Step::E(0, text.clone()), Step::E(0, text.clone())], LONG_WAIT, None);
+        let twice_fresh = run_impl(
+            store,
+            &[Step::E(0, text.clone()), Step::E(0, other.clone()), Step::E(0, text.clone()), Step::E(0, other.clone())],
+            LONG_WAIT,
+            None,
+        );
         if co.outs != twice_fresh.outs || co.dump != twice_fresh.dump {
             rep.oracle_fail(
                 "C10:cache-differs-from-fresh",
@@ -668,6 +685,16 @@ fn c11_corpus() -> Vec<(&'static str, &'static str)> {
         ("'\\u12'", "short \\u"),
         ("'\\u00e9'", "hex letter in \\u"),
         ("'\\''", "escaped quote is illegal"),
+        ("'a\\/b\\\\c\\\"d'", "escapes / \\ \""),
+        ("'\\b\\f\\n\\r\\t'", "control escapes"),
+        ("\"it's\" + 'say \"x\"'", "other delimiter inside"),
+        ("'\\u0041\\u9999'", "\\u with decimal digits"),
+        ("'\\x'", "unknown escape"),
+        ("arr[1.0005]", "index: fraction below 0.001"),
+        ("arr[1.005]", "index: fraction above 0.001"),
+        ("arr[-0.0005]", "index: negative small fraction"),
+        ("arr[9223372036854775807]", "index: max"),
+        ("arr[1e30]", "index: out of i64 range"),
         ("(1 + 2", "unterminated ("),
         ("[1, 2", "unterminated ["),
         ("{'a': 1", "unterminated {"),
@@ -769,13 +796,28 @@ pub fn run(args: &Args, model: &mut Model) -> Report {
                 index += 1;
                 let code = if take == total { k } else { p.below(total) };
                 let mut c = code;
-                let mut rest = Vec::new();
+                let mut ops = Vec::new();
                 for _ in 0..n {
-                    let o = (c % BIN_OPS.len() as u64) as usize;
+                    ops.push((c % BIN_OPS.len() as u64) as usize);
                     c /= BIN_OPS.len() as u64;
-                    rest.push((o, false, gen_item(&mut p, if n <= 3 { 1 } else { 0 }, true)));
                 }
-                let ch = Chain { first: gen_item(&mut p, 1, true), rest };
+                // operands that suit their neighbours: booleans next to & |, numbers elsewhere
+                let boolish = |o: usize| BIN_OPS[o].0 == "And" || BIN_OPS[o].0 == "Or";
+                let mut item = |p: &mut Prng, l: Option<usize>, r: Option<usize>| -> Item {
+                    let b = l.map(boolish).unwrap_or(false) || r.map(boolish).unwrap_or(false);
+                    if b && p.chance(3, 4) {
+                        Item::Atom(p.pick(BOOL_ATOMS).to_string())
+                    } else {
+                        gen_item(p, if n <= 3 { 1 } else { 0 }, true)
+                    }
+                };
+                let first = item(&mut p, None, Some(ops[0]));
+                let mut rest = Vec::new();
+                for i in 0..n {
+                    let it = item(&mut p, Some(ops[i]), ops.get(i + 1).copied());
+                    rest.push((ops[i], false, it));
+                }
+                let ch = Chain { first, rest };
                 if args.thorough && n == 4 {
                     // value + reference only (the variants are covered by the sampled part)
                     table_case(&cx, &ch, &std_store, model, &mut rep);
